@@ -193,6 +193,45 @@ fn run_case_inner(case: &Case, work: &Path, tag: &str, dir_a: &Path, dir_b: &Pat
     if let Some(d) = diff_json(&dump_a, &dump_b, "") {
         return CaseReport::violation(labels, true, format!("leader apply path vs follower replication path differ at {}", d));
     }
+    // ---- D: "new leader" path: a node holds the whole committed log, has applied only a prefix of it (as a follower
+    // whose leader died before telling it the new commit index) and then, as leader, applies its first own entry: the
+    // leader apply path has to apply the entries in between from its own log first
+    let normal_idx: Vec<u64> = log.iter().filter(|e| e["payload"].get("Normal").is_some()).filter_map(|e| e["index"].as_u64()).collect();
+    if normal_idx.len() >= 3 {
+        let last = *normal_idx.last().unwrap();
+        // prefix end: a generated cut strictly before the last Normal entry
+        let p = pick_idx(case.splits.first().copied().unwrap_or(0) ^ 0x5a5a, normal_idx.len() - 1);
+        let prefix_to = normal_idx[p]; // entries below this index are applied through the follower path
+        let dir_d = unique_dir(work, &format!("{}-d", tag));
+        let mut ops = vec![NodeOp::ReplicateLog(log.clone())];
+        if prefix_to > first_index {
+            ops.push(NodeOp::ReplicateSm { from: first_index, to: prefix_to });
+        }
+        ops.push(NodeOp::LeaderApply { index: last });
+        ops.push(NodeOp::Barrier);
+        ops.push(NodeOp::Dump);
+        let pd = phase(&dir_d, work, &format!("{}-D", tag), 3, false, 1_000_000, ops);
+        let rd = run_phase_child(work, &format!("{}-D", tag), &pd, 120);
+        std::fs::remove_dir_all(&dir_d).ok();
+        let rd = match rd {
+            Ok(r) => r,
+            Err(e) => return CaseReport::violation(labels, true, format!("node D (new-leader path): {}", e)),
+        };
+        for (i, r) in rd.results.iter().enumerate() {
+            if let NodeRes::Err(e) = r {
+                return CaseReport::violation(labels, true, format!("node D (new-leader path): op #{} failed: {}", i, e));
+            }
+        }
+        let dump_d = match get_dump(&rd, "node D (new-leader path)") {
+            Ok(d) => d,
+            Err(e) => return CaseReport::violation(labels, true, e),
+        };
+        let gap = normal_idx.iter().filter(|i| **i >= prefix_to && **i < last).count();
+        labels.push(format!("new_leader_unapplied_entries_{}", if gap == 0 { "0" } else if gap < 4 { "1_3" } else { "4_or_more" }));
+        if let Some(d) = diff_json(&dump_a, &dump_d, "") {
+            return CaseReport::violation(labels, true, format!("leader apply path vs new-leader path (whole log held, entries below index {} applied as follower, then entry {} applied as leader: {} committed entries in between) differ at {}", prefix_to, last, gap, d));
+        }
+    }
     // ---- C: B restarted (replay path)
     let pc = phase(dir_b, work, &format!("{}-C", tag), 2, false, 1_000_000, vec![NodeOp::Dump]);
     let rc = match run_phase_child(work, &format!("{}-C", tag), &pc, 120) {
@@ -226,7 +265,7 @@ pub fn main(ctx: &Ctx) -> i32 {
     let work = work_dir(ctx);
     let fin = || Finish {
         level: "exploration",
-        rule: "a generated committed sequence (6..N requests over all ClientRequest kinds: ConfigSet / ConfigFullValue with histories / ConfigRemove, user table set/remove, namespace set/add-only/update/delete, sequence next/range/set/remove, MCP tool-spec and server add/update/publish/remove, persistent instance register/update/remove, cache set/remove, NodeAddr, Members; small overlapping key universes) is written through a real single-node Raft on node A, its exact log entries are replicated to node B in generated batch splits (replicate_to_log + replicate_to_state_machine), B is restarted (C) and A is restarted (A'); the state dumps (every config GET + history page, tenant listings, namespaces, user rows, MCP servers/tools, persistent instances, membership/addresses, sequence counters probed last) of A, B, C, A' must be equal. non-trivial = >=6 distinct request kinds and >=2 follower batches; distinct = hash of the case".into(),
+        rule: "a generated committed sequence (6..N requests over all ClientRequest kinds: ConfigSet / ConfigFullValue with histories / ConfigRemove, user table set/remove, namespace set/add-only/update/delete, sequence next/range/set/remove, MCP tool-spec and server add/update/publish/remove, persistent instance register/update/remove, cache set/remove, NodeAddr, Members; small overlapping key universes) is written through a real single-node Raft on node A, its exact log entries are replicated to node B in generated batch splits (replicate_to_log + replicate_to_state_machine), B is restarted (C) and A is restarted (A'); a fourth node D holds the whole log, applies a generated prefix through the follower path and then the LAST entry through the leader apply path (a freshly elected leader with committed-but-unapplied entries); the state dumps (every config GET + history page, tenant listings, namespaces, user rows, MCP servers/tools, persistent instances, membership/addresses, sequence counters probed last) of A, B, D, C, A' must be equal. non-trivial = >=6 distinct request kinds and >=2 follower batches; distinct = hash of the case".into(),
         assumptions: vec![
             "cache entries are exercised but not compared (TTL / type normalisation is not part of the statement)".into(),
             "namespace list compared as a set ordered by id (insertion order is presentational)".into(),
